@@ -113,7 +113,9 @@ impl FeelNumber {
   }
   ///
   pub fn even(&self) -> bool {
-    dec_is_zero(&dec_remainder(&self.0, &DEC_TWO))
+    let remainder = dec_remainder(&self.0, &DEC_TWO);
+    // the remainder is not available when the quotient has more than 34 digits; such a number is a multiple of ten
+    dec_is_zero(&remainder) || (!dec_is_finite(&remainder) && dec_is_finite(&self.0))
   }
   ///
   pub fn exp(&self) -> Self {
@@ -154,7 +156,8 @@ impl FeelNumber {
   }
   ///
   pub fn odd(&self) -> bool {
-    dec_is_integer(&self.0) && !dec_is_zero(&dec_remainder(&self.0, &DEC_TWO))
+    // an odd integer leaves 1 or -1, whatever its number of trailing fraction zeros
+    dec_is_zero(&dec_compare(&dec_abs(&dec_remainder(&self.0, &DEC_TWO)), &DEC_ONE))
   }
   ///
   pub fn pow(&self, rhs: &FeelNumber) -> Option<Self> {
